@@ -41,6 +41,9 @@ REQUIRED_TRIE = ["KV.C03Trie.trie_refines", "KV.C03Trie.trie_prob", "KV.C03Trie.
                  "KV.C03Trie.quant_structural", "KV.C03Trie.table_structural", "KV.C03Trie.quant_structural_tries", "KV.C03Trie.ExamplePlain.represents", "KV.C03Trie.ExampleQuantArray.represents",
                  "KV.C03Trie.ExampleBuilt.built_represents", "KV.C03Trie.ExampleBuilt.built_eq_real_file"]
 
+REQUIRED_TRIEBUILD = ["KV.C03TrieBuild.trie_write_frame", "KV.C03TrieBuild.key_order",
+                      "KV.C03TrieBuild.trie_build_represents_partial", "KV.C03TrieBuild.visit_invariant"]
+
 TYPE_NAMES = ["probing", "rest-probing", "trie", "quant-trie", "array-trie", "quant-array-trie"]
 
 
@@ -410,6 +413,9 @@ def triebuild_stream(ctx, pair, d, arpa_bytes, grams, order, tag):
     blanks = res.split("blanks=")[1].split()[0] if "blanks=" in res else "?"
     ctx.hist("triebuild", "equal" if res.endswith("equal") else res.split()[1] + ("" if res.startswith("tb ok") else " " + res.split()[-1]))
     ctx.hist("triebuild.blanks", min(int(blanks), 50) if blanks.isdigit() else blanks)
+    if "represents=false" in res:
+        out.append(("the verified checker rejects the trie built by the Lean builder (Represents (ofTable ..) fails on this model)",
+                    {"driver": res[:300], "ngrams": len(toks)}))
     if not res.startswith("tb ok") or not res.endswith(" equal") or ("counts=" + ",".join(map(str, counts))) not in res:
         out.append(("the trie memory built by the Lean builder differs from the search region the real build_binary wrote",
                     {"driver": res[:300], "real_counts": counts, "ngrams": len(toks)}))
@@ -548,14 +554,15 @@ def run(ctx):
         flow.report_obligation_failures(ctx, problems, False)
         return
     problems, consts = flow.proof_phase(ctx, "C04", probe="probe_C04.cc", probe_flags=flags, required=REQUIRED,
-                                        targets=["Properties.C04", "Properties.C03Trie"], drivers=["drv_C04"])
+                                        targets=["Properties.C04", "Properties.C03Trie", "Properties.C03TrieBuild"], drivers=["drv_C04"])
     # the trie clause of C03 (Properties/C03Trie.lean) is owned by this builder: audited here as well
     if not any("lake build failed" in p_ for p_ in problems):
         o1, d1, t1 = ctx.cov["obligations"], ctx.cov["discharged"], list(ctx.cov.get("theorems", []))
-        problems += lean.audit(ctx, "C03Trie", REQUIRED_TRIE)
-        ctx.cov["obligations"] += o1
-        ctx.cov["discharged"] += d1
-        ctx.cov["theorems"] = t1 + ctx.cov.get("theorems", [])
+        for pid2, req2 in (("C03Trie", REQUIRED_TRIE), ("C03TrieBuild", REQUIRED_TRIEBUILD)):
+            problems += lean.audit(ctx, pid2, req2)
+            o1, d1 = o1 + ctx.cov["obligations"], d1 + ctx.cov["discharged"]
+            t1 = t1 + ctx.cov.get("theorems", [])
+        ctx.cov["obligations"], ctx.cov["discharged"], ctx.cov["theorems"] = o1, d1, t1
     ok, hexe, lg = repo.harness("c04.cc", libs=True, config="asan")
     if not ok:
         problems.append(lg)
